@@ -74,7 +74,7 @@ def run_product(ctx, recs, module, cfg, depth, label):
 
 def run_common(ctx, module, cfg, label):
     q = ctx.quick
-    per = 14 if q else 150
+    per = 14 if q else 40
     depth = 4 if q else 5
     recs = compile_corpus(ctx, per)
     batch, fails = run_product(ctx, recs, module, cfg, depth, label)
